@@ -675,6 +675,173 @@ def _cumsum(ins, params):
 ARITH["cumsum"] = _cumsum
 
 
+def _cum(fold):
+    def rule(ins, params):
+        x = ins[0]
+        ax = params["axis"]
+        rev = params.get("reverse", False)
+        a = np.moveaxis(x.a, ax, -1)
+        out = np.empty(a.shape, dtype=object)
+        for ix in np.ndindex(*a.shape[:-1]):
+            row = list(a[ix])
+            if rev:
+                row = row[::-1]
+            res, acc = [], None
+            for v in row:
+                acc = v if acc is None else fold(acc, v)
+                res.append(acc)
+            if rev:
+                res = res[::-1]
+            for j, v in enumerate(res):
+                out[ix + (j,)] = v
+        return [Sym(np.moveaxis(out, -1, ax), "real")]
+    return rule
+
+
+ARITH["cumprod"] = _cum(lambda a, b: a * b)
+ARITH["cummax"] = _cum(S.pmax)
+ARITH["cummin"] = _cum(S.pmin)
+for _n in ("erfc", "sinh", "cosh", "tan", "atan", "asin", "acos", "asinh", "acosh", "atanh", "cbrt", "lgamma", "digamma"):
+    ARITH[_n] = _uf1(_n)
+
+
+def _reduce_window(fold, identity):
+    """lax.reduce_window_{sum,max,min}: explicit windows over the padded / dilated operand (padding with the
+    identity of the reduction, exactly as XLA specifies)."""
+    def rule(ins, params):
+        x = ins[0]
+        if x.kind != "real":
+            raise Unsupported("reduce_window on a non-real symbolic operand")
+        a = x.a
+        nd = a.ndim
+        wd = tuple(params["window_dimensions"])
+        ws = tuple(params["window_strides"])
+        pad = tuple(tuple(q) for q in params["padding"])
+        bd = tuple(params.get("base_dilation") or (1,) * nd)
+        wdil = tuple(params.get("window_dilation") or (1,) * nd)
+        # base dilation, then padding
+        shp = tuple((n - 1) * b + 1 if n > 0 else 0 for n, b in zip(a.shape, bd))
+        d = np.empty(shp, dtype=object)
+        d.reshape(-1)[:] = [identity] * d.size
+        d[tuple(slice(0, None, b) for b in bd)] = a
+        pshape = tuple(n + lo + hi for n, (lo, hi) in zip(shp, pad))
+        if any(lo < 0 or hi < 0 for lo, hi in pad):
+            raise Unsupported("reduce_window with negative padding")
+        pa = np.empty(pshape, dtype=object)
+        pa.reshape(-1)[:] = [identity] * pa.size
+        pa[tuple(slice(lo, lo + n) for n, (lo, hi) in zip(shp, pad))] = d
+        eff = tuple((w - 1) * dl + 1 for w, dl in zip(wd, wdil))
+        oshape = tuple(max(0, (n - e) // st + 1) for n, e, st in zip(pshape, eff, ws))
+        out = np.empty(oshape, dtype=object)
+        offs = list(itertools.product(*[range(w) for w in wd]))
+        for ix in np.ndindex(*oshape):
+            vals = [pa[tuple(i * st + o * dl for i, st, o, dl in zip(ix, ws, off, wdil))] for off in offs]
+            vals = [v for v in vals if v is not identity]
+            if not vals:
+                if identity is _PAD:
+                    raise Unsupported("reduce_window max/min over a window that is padding only")
+                vals = [identity]
+            out[ix] = fold(vals)
+        return [Sym(out, "real", x.dtype)]
+    return rule
+
+
+_PAD = object()  # padding of max/min windows (-inf/+inf): dropped from the window
+ARITH["reduce_window_sum"] = _reduce_window(_sum_list, S.ZERO)
+ARITH["reduce_window_max"] = _reduce_window(_fold(S.pmax), _PAD)
+ARITH["reduce_window_min"] = _reduce_window(_fold(S.pmin), _PAD)
+
+
+def _scatter_add(eqn, ins):
+    """scatter-add with concrete indices: out = operand + M . updates, the 0/1(count) matrix M read off the REAL primitive
+    applied to one-hot updates."""
+    operand, idx, upd = ins
+    if is_sym(idx):
+        raise Unsupported("scatter-add with symbolic indices")
+    op = lift(operand, "real")
+    up = lift(upd, "real")
+    n = int(np.prod(up.shape, dtype=int))
+    eye = jnp.eye(n, dtype=jnp.float32).reshape((n,) + tuple(up.shape))
+    zeros = jnp.zeros(op.shape, jnp.float32)
+    M = np.asarray(jax.vmap(lambda u: eqn.primitive.bind(zeros, idx, u, **eqn.params))(eye))  # (n,) + operand.shape
+    out = op.a.copy()
+    uf = up.a.reshape(-1)
+    for j in range(n):
+        for pos in zip(*np.nonzero(M[j])):
+            out[pos] = out[pos] + uf[j] * Fraction(int(round(float(M[j][pos]))))
+    return [Sym(out, "real", op.dtype)]
+
+
+def _scan(eqn, ins):
+    """lax.scan with a static trip count: unrolled."""
+    pr = eqn.params
+    closed = pr["jaxpr"]
+    body, bconsts = closed.jaxpr, list(closed.consts)
+    length, rev = pr["length"], pr.get("reverse", False)
+    if "num_consts" in pr:
+        nc, ncar = pr["num_consts"], pr["num_carry"]
+    else:  # newer jax: flat-tree description of (consts, carry, xs), as jax's own _scan_impl reads it
+        try:
+            parts = [list(q) for q in pr["ft_in"].update(list(range(len(ins)))).unpack()]
+            nc, ncar = len(parts[0]), len(parts[1])
+            assert parts[0] + parts[1] + parts[2] == list(range(len(ins)))
+            oparts = [list(q) for q in pr["ft_out"].update(list(range(len(body.outvars)))).unpack()]
+            assert oparts[0] == list(range(ncar)) and oparts[0] + oparts[1] == list(range(len(body.outvars)))
+        except Exception as e:  # noqa: BLE001
+            raise Unsupported(f"scan: cannot read the operand split ({e!r})")
+    consts, carry, xs = list(ins[:nc]), list(ins[nc:nc + ncar]), list(ins[nc + ncar:])
+    ys = None
+    order = range(length - 1, -1, -1) if rev else range(length)
+    per_step = {}
+    for i in order:
+        xi = [Sym(x.a[i], x.kind, x.dtype) if is_sym(x) else x[i] for x in xs]
+        outs = run_jaxpr(body, bconsts, consts + carry + xi)
+        carry = outs[:ncar]
+        per_step[i] = outs[ncar:]
+    n_y = len(body.outvars) - ncar
+    ys = []
+    for j in range(n_y):
+        col = [per_step[i][j] for i in range(length)]
+        if any(is_sym(c) for c in col):
+            kind = next(c.kind for c in col if is_sym(c))
+            col = [lift(c, kind) for c in col]
+            ys.append(Sym(np.stack([c.a for c in col], axis=0) if length else np.empty((0,) + tuple(body.outvars[ncar + j].aval.shape), dtype=object),
+                          kind, col[0].dtype if col else None))
+        else:
+            ys.append(jnp.stack(col, axis=0) if length else jnp.zeros((0,) + tuple(body.outvars[ncar + j].aval.shape), body.outvars[ncar + j].aval.dtype))
+    return carry + ys
+
+
+def _while(eqn, ins):
+    """lax.while_loop / fori_loop whose condition stays concrete: iterated for real (bounded)."""
+    pr = eqn.params
+    cj, bj = pr["cond_jaxpr"], pr["body_jaxpr"]
+    cn, bn = pr["cond_nconsts"], pr["body_nconsts"]
+    cconsts, bconsts, carry = list(ins[:cn]), list(ins[cn:cn + bn]), list(ins[cn + bn:])
+    for _ in range(10000):
+        c = run_jaxpr(cj.jaxpr, list(cj.consts), cconsts + carry)[0]
+        if is_sym(c):
+            raise Unsupported("while_loop whose condition depends on symbolic values")
+        if not bool(np.asarray(c)):
+            return carry
+        carry = run_jaxpr(bj.jaxpr, list(bj.consts), bconsts + carry)
+    raise Unsupported("while_loop did not terminate within 10000 iterations")
+
+
+def _cond(eqn, ins):
+    """lax.cond / switch: concrete index -> that branch; symbolic Boolean predicate -> both branches merged with ite."""
+    branches = eqn.params["branches"]
+    idx, ops = ins[0], list(ins[1:])
+    if not is_sym(idx):
+        b = branches[int(np.clip(int(np.asarray(idx)), 0, len(branches) - 1))]
+        return run_jaxpr(b.jaxpr, list(b.consts), ops)
+    if len(branches) != 2:
+        raise Unsupported("switch with a symbolic index and more than two branches")
+    o0 = run_jaxpr(branches[0].jaxpr, list(branches[0].consts), ops)
+    o1 = run_jaxpr(branches[1].jaxpr, list(branches[1].consts), ops)
+    return [_select_n([idx, a, b], {})[0] for a, b in zip(o0, o1)]
+
+
 # canonical (order-independent) argmax selection, only for network-level obligations that ASSUME the max-pool precondition
 CANON_ARGMAX = False
 
@@ -735,6 +902,18 @@ def run_jaxpr(jaxpr, consts, args):
             outs = r[0] if isinstance(r, tuple) else r
         elif name == "conv_general_dilated":
             outs = _conv_rule(eqn, ins)
+            STATS["eqns_native_arith"] += 1
+        elif name == "scan":
+            outs = _scan(eqn, ins)
+            STATS["eqns_call"] += 1
+        elif name == "while":
+            outs = _while(eqn, ins)
+            STATS["eqns_call"] += 1
+        elif name == "cond":
+            outs = _cond(eqn, ins)
+            STATS["eqns_call"] += 1
+        elif name in ("scatter-add", "scatter_add"):
+            outs = _scatter_add(eqn, ins)
             STATS["eqns_native_arith"] += 1
         elif name in ARITH:
             f = ARITH[name]
